@@ -684,7 +684,7 @@ func spliceSite(fset *token.FileSet, pk *packages.Package, file *ast.File, src [
 	}
 	for _, r := range rets {
 		var t string
-		if th != nil && len(r.Results) == len(results) && certainlyFailure(h.pkg.TypesInfo, h.decl.Body, r, lastType) && !th.shadowedAt(h, r.Pos()) {
+		if th != nil && len(r.Results) == len(results) && certainlyFailure(h.pkg.TypesInfo, h.decl.Body, r, th) && !th.shadowedAt(h, r.Pos()) {
 			var vals []string
 			for _, e := range r.Results {
 				vals = append(vals, htext(e))
@@ -1131,13 +1131,16 @@ type threadCtx struct {
 	tStart token.Pos // position of the guard body's opening brace
 	pk     *packages.Package
 	nodes  []ast.Node // caller nodes whose identifiers are copied (guard body, assignment)
+	form   string     // how the guard tests the k-th assigned variable: "!", "!=nil", "==nil", "!=str", "==str"
+	k      int
 	defs   map[string]bool
 }
 
 // threadContext recognises `… , err := call` followed by `if err != nil { T }` (or the if-init form), T ending in a
 // return and containing no unlabelled break / continue / goto.
 func threadContext(pk *packages.Package, src []byte, off func(token.Pos) int, stmt ast.Stmt, parent ast.Node, call *ast.CallExpr, lhsTemps []string, lastType string) *threadCtx {
-	if lastType != "error" && lastType != "bool" {
+	nres := len(lhsTemps)
+	if nres == 0 {
 		return nil
 	}
 	replaceCall := func(n ast.Node) string {
@@ -1181,26 +1184,46 @@ func threadContext(pk *packages.Package, src []byte, off func(token.Pos) int, st
 	if guard.Else != nil || len(as.Lhs) == 0 {
 		return nil
 	}
-	errId, ok := as.Lhs[len(as.Lhs)-1].(*ast.Ident)
-	if !ok || errId.Name == "_" {
+	// the guard tests one of the assigned variables against its zero value
+	lhsIdx := func(name string) int {
+		for k, l := range as.Lhs {
+			if id, ok := l.(*ast.Ident); ok && id.Name == name && name != "_" {
+				return k
+			}
+		}
+		return -1
+	}
+	form, k := "", -1
+	switch c := ast.Unparen(guard.Cond).(type) {
+	case *ast.UnaryExpr:
+		if id, ok := ast.Unparen(c.X).(*ast.Ident); ok && c.Op == token.NOT {
+			form, k = "!", lhsIdx(id.Name)
+		}
+	case *ast.BinaryExpr:
+		if c.Op == token.NEQ || c.Op == token.EQL {
+			x, y := ast.Unparen(c.X), ast.Unparen(c.Y)
+			if _, isId := x.(*ast.Ident); !isId {
+				x, y = y, x
+			}
+			if id, ok := x.(*ast.Ident); ok {
+				switch z := y.(type) {
+				case *ast.Ident:
+					if z.Name == "nil" {
+						form, k = c.Op.String()+"nil", lhsIdx(id.Name)
+					}
+				case *ast.BasicLit:
+					if z.Kind == token.STRING && (z.Value == `""` || z.Value == "``") {
+						form, k = c.Op.String()+"str", lhsIdx(id.Name)
+					}
+				}
+			}
+		}
+	}
+	if k < 0 || len(as.Lhs) != nres {
 		return nil
 	}
-	isId := func(e ast.Expr, name string) bool { id, ok := e.(*ast.Ident); return ok && id.Name == name }
-	if lastType == "bool" {
-		// `if !ok { T }`
-		ue, ok := ast.Unparen(guard.Cond).(*ast.UnaryExpr)
-		if !ok || ue.Op != token.NOT || !isId(ast.Unparen(ue.X), errId.Name) {
-			return nil
-		}
-	} else {
-		be, ok := ast.Unparen(guard.Cond).(*ast.BinaryExpr)
-		if !ok || be.Op != token.NEQ {
-			return nil
-		}
-		x, y := ast.Unparen(be.X), ast.Unparen(be.Y)
-		if !(isId(x, errId.Name) && isId(y, "nil") || isId(y, errId.Name) && isId(x, "nil")) {
-			return nil
-		}
+	if form == "!=nil" && !(k == nres-1 && lastType == "error") {
+		return nil // "non-nil means failure" is only recognised for a trailing error
 	}
 	body := guard.Body
 	if len(body.List) == 0 {
@@ -1226,7 +1249,7 @@ func threadContext(pk *packages.Package, src []byte, off func(token.Pos) int, st
 	if bad {
 		return nil
 	}
-	th := &threadCtx{pk: pk, tStart: body.Lbrace, defs: map[string]bool{}}
+	th := &threadCtx{pk: pk, tStart: body.Lbrace, defs: map[string]bool{}, form: form, k: k}
 	th.prefix = replaceCall(assign)
 	for _, l := range as.Lhs {
 		if id, ok := l.(*ast.Ident); ok && id.Name != "_" {
@@ -1302,17 +1325,31 @@ func (th *threadCtx) checkIdent(id *ast.Ident, inner *types.Scope, pos token.Pos
 
 // certainlyError: the last result of this return is an error value that cannot be nil: a freshly made error, or a
 // variable tested `!= nil` by an enclosing if with no assignment to it in between.
-// certainlyFailure: the last result of this return is the failure value of the idiom: the literal false for a
-// (…, ok bool) helper, a certainly non-nil error for a (…, error) helper.
-func certainlyFailure(info *types.Info, body *ast.BlockStmt, r *ast.ReturnStmt, lastType string) bool {
-	if lastType == "bool" {
-		if len(r.Results) == 0 {
-			return false
-		}
-		id, ok := ast.Unparen(r.Results[len(r.Results)-1]).(*ast.Ident)
-		return ok && id.Name == "false" && info.Uses[id] == types.Universe.Lookup("false")
+// certainlyFailure: the result of this return that the caller's guard tests certainly takes the guarded branch: the
+// literal false under `if !ok`, the literal nil under `if v == nil`, a non-empty / the empty string literal under
+// `if s != ""` / `if s == ""`, a certainly non-nil error under `if err != nil`.
+func certainlyFailure(info *types.Info, body *ast.BlockStmt, r *ast.ReturnStmt, th *threadCtx) bool {
+	if th.k >= len(r.Results) {
+		return false
 	}
-	return certainlyError(info, body, r)
+	e := ast.Unparen(r.Results[th.k])
+	switch th.form {
+	case "!":
+		id, ok := e.(*ast.Ident)
+		return ok && id.Name == "false" && info.Uses[id] == types.Universe.Lookup("false")
+	case "==nil":
+		id, ok := e.(*ast.Ident)
+		return ok && id.Name == "nil" && info.Uses[id] == types.Universe.Lookup("nil")
+	case "!=str":
+		bl, ok := e.(*ast.BasicLit)
+		return ok && bl.Kind == token.STRING && len(bl.Value) > 2
+	case "==str":
+		bl, ok := e.(*ast.BasicLit)
+		return ok && bl.Kind == token.STRING && len(bl.Value) == 2
+	case "!=nil":
+		return certainlyError(info, body, r)
+	}
+	return false
 }
 
 func certainlyError(info *types.Info, body *ast.BlockStmt, r *ast.ReturnStmt) bool {
